@@ -206,6 +206,19 @@ theorem frozen_instruction_is_what_recomputation_chooses (st : Static) (defsM de
     resolveEncoding st defs2 evalFuel ctx2 cands {} = .ok (some encs, []) :=
   frozen_instruction_sound st defsM defs1 defs2 ctx1 ctx2 rel fk cands hk hd encs rep h1 hs
 
+/-- the names the model treats as built-in inclusion functions / as the address are the ones the
+    code answers before any declared symbol (`resolve_builtin_fn`, `get_statically_known_builtin_fn`
+    in `resolver/eval_fn.rs`, `eval_builtin_symbol` in `resolver/eval.rs`; tables regenerated from
+    the source on every run) -/
+theorem builtin_names_are_the_code's :
+    (∀ n, isAsmBuiltinName n = Gen.asmBuiltinFns.contains n) ∧
+    Gen.asmBuiltinKnown = Gen.asmBuiltinFns.map (fun n => (n, true)) ∧ Gen.addressNames = ["$", "pc"] := by
+  refine ⟨fun n => ?_, by decide, by decide⟩
+  have : Gen.asmBuiltinFns = ["incbin", "incbinstr", "inchexstr"] := by decide
+  rw [this]
+  simp only [isAsmBuiltinName, List.contains, List.elem]
+  cases (n == "incbin") <;> cases (n == "incbinstr") <;> cases (n == "inchexstr") <;> rfl
+
 /-- **evaluation never reads the static switch** -/
 theorem evaluation_ignores_the_static_switch (st : Static) (b : Bool) (d : Defs) :
     resolverEval (st.withStatic b) d = resolverEval st d :=
